@@ -304,3 +304,297 @@ def _none_param_rebound(x, y=None):
 
 def alarm_none_param_rebound(src):
     _none_param_rebound(src)
+
+
+# ---- string constants: attribute names and keys ------------------------------------------------------------------
+class _T:
+    pass
+
+
+def _copy_attrs(dst, src_, names):
+    for n in names:
+        v = getattr(src_, n, None)
+        if v is not None:
+            setattr(dst, n, v)
+
+
+def ok_copy_named_attrs(src):
+    a = _T()
+    a.keep = src
+    a.other = deepcopy(src)
+    b = _T()
+    _copy_attrs(b, a, {"other"})
+    b.other.width = 1
+
+
+def alarm_copy_named_attrs(src):
+    a = _T()
+    a.keep = src
+    a.other = deepcopy(src)
+    b = _T()
+    _copy_attrs(b, a, {"keep", "other"})
+    b.keep.width = 1
+
+
+def alarm_copy_named_attrs_rebound(src):
+    a = _T()
+    a.keep = src
+    b = _T()
+    _copy_attrs_rebound(b, a, {"other"})
+    b.keep.width = 1
+
+
+def _copy_attrs_rebound(dst, src_, names):
+    names = names | {"keep"}
+    for n in names:
+        setattr(dst, n, getattr(src_, n, None))
+
+
+def alarm_copy_attrs_unknown_names(src):
+    a = _T()
+    a.keep = src
+    b = _T()
+    _copy_attrs(b, a, set(src.names))
+    b.keep.width = 1
+
+
+def ok_dict_keys(src):
+    d = {"a": src, "b": deepcopy(src)}
+    d["b"].width = 1
+
+
+def alarm_dict_keys(src):
+    d = {"a": src, "b": deepcopy(src)}
+    d["a"].width = 1
+
+
+def alarm_dict_key_unknown_store(src):
+    d = {"b": deepcopy(src)}
+    d[src.name] = src
+    d["b"].width = 1
+
+
+def alarm_dict_key_update(src):
+    d = {"b": deepcopy(src)}
+    d.update({"b": src})
+    d["b"].width = 1
+
+
+def _get_key(d, k):
+    return d[k]
+
+
+def ok_key_through_call(src):
+    d = {"a": src, "b": deepcopy(src)}
+    _get_key(d, "b").width = 1
+
+
+def alarm_key_through_call(src):
+    d = {"a": src, "b": deepcopy(src)}
+    _get_key(d, "a").width = 1
+
+
+def alarm_key_through_call_unknown(src):
+    d = {"a": src, "b": deepcopy(src)}
+    _get_key(d, src.name).width = 1
+
+
+def ok_loop_over_literal_keys(src):
+    d = {"a": src, "b": deepcopy(src), "c": deepcopy(src)}
+    for k in ("b", "c"):
+        d[k].width = 1
+
+
+def alarm_loop_over_literal_keys(src):
+    d = {"a": src, "b": deepcopy(src), "c": deepcopy(src)}
+    for k in ("b", "a"):
+        d[k].width = 1
+
+
+def alarm_loop_var_after_rebind(src):
+    d = {"a": src, "b": deepcopy(src)}
+    for k in ("b",):
+        k = "a"
+        d[k].width = 1
+
+
+def alarm_loop_key_via_items(src):
+    names = {"x": "a", "y": "b"}
+    d = {"x": src, "y": deepcopy(src)}
+    for k, v in names.items():
+        d[k].width = 1
+
+
+def ok_loop_key_via_items(src):
+    names = {"y": "b"}
+    d = {"x": src, "y": deepcopy(src)}
+    for k, v in names.items():
+        d[k].width = 1
+
+
+def alarm_local_dict_mutated_before_loop(src):
+    names = {"y": "b"}
+    names["x"] = "a"
+    d = {"x": src, "y": deepcopy(src)}
+    for k, v in names.items():
+        d[k].width = 1
+
+
+_NAMES = ("y",)
+_NAMES_MUT = ["y"]
+
+
+def ok_module_constant_names(src):
+    d = {"x": src, "y": deepcopy(src)}
+    for k in _NAMES:
+        d[k].width = 1
+
+
+def alarm_module_names_mutated(src):
+    _NAMES_MUT.append("x")
+    d = {"x": src, "y": deepcopy(src)}
+    for k in _NAMES_MUT:
+        d[k].width = 1
+
+
+def alarm_instance_dict_store(src):
+    t = _T()
+    t.__dict__["f"] = src
+    t.f.width = 1
+
+
+# ---- narrowing of a local by the guarding test -----------------------------------------------------------------------
+def _scalar_guard(tbl, value):
+    if isinstance(value, (str, bytes)):
+        tbl["k"] = value  # an immutable scalar: nothing of the source can be written through it
+    else:
+        raise TypeError
+
+
+def ok_scalar_guard(src):
+    tbl = {}
+    _scalar_guard(tbl, src.lib["x"])
+    for v in tbl.values():
+        v.append(1)
+
+
+def _scalar_guard_bad(tbl, value):
+    if isinstance(value, (str, list)):
+        tbl["k"] = value
+    else:
+        raise TypeError
+
+
+def alarm_scalar_guard_list(src):
+    tbl = {}
+    _scalar_guard_bad(tbl, src.lib["x"])
+    for v in tbl.values():
+        v.append(1)
+
+
+def _guard_then_rebind(tbl, value, other):
+    if isinstance(value, str):
+        value = other
+        tbl["k"] = value
+
+
+def alarm_guard_then_rebind(src):
+    tbl = {}
+    _guard_then_rebind(tbl, src.lib["x"], src.lib["y"])
+    tbl["k"].append(1)
+
+
+def _raise_guard(tbl, value):
+    if not isinstance(value, bytes):
+        raise TypeError
+    tbl["k"] = value
+
+
+def ok_raise_guard(src):
+    tbl = {}
+    _raise_guard(tbl, src.lib["x"])
+    tbl["k"].append(1)
+
+
+def _raise_guard_rebind_in_branch(tbl, value, other):
+    if not isinstance(value, bytes):
+        value = other
+    else:
+        return
+    tbl["k"] = value
+
+
+def alarm_raise_guard_rebind_in_branch(src):
+    tbl = {}
+    _raise_guard_rebind_in_branch(tbl, src.lib["x"], src.lib["y"])
+    tbl["k"].append(1)
+
+
+def _guard_in_loop(tbl, values):
+    v = None
+    for x in values:
+        if isinstance(v, str):
+            continue
+        tbl["k"] = v
+        v = x
+
+
+def alarm_guard_in_loop(src):
+    tbl = {}
+    _guard_in_loop(tbl, src.lib["xs"])
+    tbl["k"].append(1)
+
+
+def _guard_lambda(value):
+    if isinstance(value, str):
+        return None
+    return lambda: value.append(1)
+
+
+def alarm_guard_lambda_other_branch(src):
+    _guard_lambda(src.lib["x"])()
+
+
+def _guard_genexp(value, other):
+    if isinstance(value, str):
+        g = (value for _ in range(1))  # runs later, after `value` has been rebound
+        value = other
+        for v in g:
+            v.append(1)
+
+
+def alarm_guard_genexp_deferred(src):
+    _guard_genexp(src.lib["x"], src.lib["y"])
+
+
+def _none_guard(a, x):
+    if a is None:
+        return
+    a.width = 1
+
+
+def ok_none_guard(src):
+    _none_guard(None, src)
+
+
+def alarm_none_guard(src):
+    _none_guard(src, src)
+
+
+def _attr_guard(h, x):
+    # narrowing applies to plain local names only: `h.v` may change between test and use
+    if isinstance(h.v, str):
+        h.reset(x)
+        h.v.append(1)
+
+
+class _H2:
+    def __init__(self):
+        self.v = "s"
+
+    def reset(self, x):
+        self.v = x
+
+
+def alarm_attribute_not_narrowed(src):
+    _attr_guard(_H2(), src.lib["x"])
